@@ -368,7 +368,13 @@ Section CBR.
                    destruct (IHc c ltac:(cbn [esize] in *; lia) Hfv Hc _ _ _ Hx) as [-> _] end; inv Hk; eauto
                | match type of Hx with ev _ ?c = _ =>
                    destruct (IHc c ltac:(cbn [esize] in *; lia) Hfv Hc _ _ _ Hx) as [_ [v Hv]] end; discriminate ]).
-        match type of Hev with context [w_unbound W ?r] => destruct (w_unbound W r); [destruct (w_genv W r)|] end; inv Hev; eauto.
+        destruct wasTypeofId.
+        * match type of Hev with context [w_unbound W ?r] => destruct (w_unbound W r); [destruct (w_genv W r)|] end; inv Hev; eauto.
+        * apply bind_inv in Hev as [(t1 & x & Hx & Hk)|(x & Hx & Ho)];
+            [ match type of Hx with ev _ ?c = _ =>
+                destruct (IHc c ltac:(cbn [esize] in *; lia) Hfv Hc _ _ _ Hx) as [-> _] end; inv Hk; eauto
+            | match type of Hx with ev _ ?c = _ =>
+                destruct (IHc c ltac:(cbn [esize] in *; lia) Hfv Hc _ _ _ Hx) as [_ [v Hv]] end; discriminate ].
     - (* EBin *)
       cbn [esize] in Hsz. cbn [flags_ok] in Hfl. destruct Hfl as [Hf1 Hf2].
       assert (Hsz1 : (esize e1 <= n)%nat) by lia. assert (Hsz2 : (esize e2 <= n)%nat) by lia.
